@@ -499,15 +499,37 @@ def catalogue():
         else:
             cells = np.array([c if c >= 0 else n + (-c) * o["far"]
                               for c in o["cells"]], dtype=np.int64)
+        # the description holds lists (what to_dict gives), the caller's own
+        # int64 arrays, or arrays mapped read-only from a file
+        form = o.get("form", "list")
+        area, filled = cells.tolist(), cells.tolist()
+        if form == "array":
+            area, filled = cells.copy(), cells.copy()
+        elif form == "readonly_map":
+            import tempfile
+            maps = []
+            for _ in range(2):
+                fd, fn = tempfile.mkstemp(prefix="hyverif-cells-",
+                                          dir="/dev/shm")
+                os.write(fd, cells.tobytes())
+                os.close(fd)
+                maps.append(np.memmap(fn, dtype=np.int64, mode="r",
+                                      shape=cells.shape))
+                os.unlink(fn)
+            area, filled = maps
         dic = {"name": "foreign", "idxcell_outlet": int(cells[0]),
-               "idxinlets": None, "idxcells_area": cells.tolist(),
-               "idxcells_area_filled": cells.tolist(),
+               "idxinlets": None, "idxcells_area": area,
+               "idxcells_area_filled": filled,
                "flowdir": a.fd.to_dict()}
         c = hgrid.Catchment.from_dict(dic)
         out = []
         for step in o["then"]:
             if step == "boundary":
-                c.delineate_boundary()
+                if o.get("own_mask"):
+                    c.delineate_boundary(catchment_area_mask=np.ones(
+                        max(n, 0), dtype=np.int64))
+                else:
+                    c.delineate_boundary()
             elif step == "extent":
                 out.append(c.extent())
             elif step == "flowpaths":
@@ -523,6 +545,9 @@ def catalogue():
         lambda cs: {"cells": [cs.choice(f"c{i}", [0, 1, 2, 5, -1, -2, -7, 3])
                               for i in range(cs.between("nc", 2, 6))],
                     "far": cs.choice("far", [1, 3, 1000, 2 ** 33]),
+                    "own_mask": cs.flip("own_mask", 35),
+                    "form": cs.weighted("form", [("list", 5), ("array", 2),
+                                                 ("readonly_map", 2)]),
                     "negative": cs.weighted("negative", [(False, 6), (True, 3),
                                                          ("wrap32", 2),
                                                          ("int64_edge", 2)]),
@@ -530,6 +555,38 @@ def catalogue():
                                                  "flowpaths", "intersect",
                                                  "voronoi"])
                              for i in range(2)]}, weight=5)
+    def from_dict_own_arrays(a, o):
+        """A valid catchment described by the caller's own cell arrays (in the
+        order a tool wrote them, not sorted), possibly mapped read-only from a
+        file; then the boundary (whose kernel sorts its cell list)."""
+        import tempfile
+        cells = np.asarray(a.c._idxcells_area, dtype=np.int64)[::-1].copy()
+        filled = np.asarray(a.c._idxcells_area_filled,
+                            dtype=np.int64)[::-1].copy()
+        if o["form"] == "readonly_map":
+            maps = []
+            for arr in (cells, filled):
+                fd, fn = tempfile.mkstemp(prefix="hyverif-cells-",
+                                          dir="/dev/shm")
+                os.write(fd, arr.tobytes())
+                os.close(fd)
+                maps.append(np.memmap(fn, dtype=np.int64, mode="r",
+                                      shape=arr.shape) if len(arr) else arr)
+                os.unlink(fn)
+            cells, filled = maps
+        dic = {"name": "mine", "idxcell_outlet": int(a.c._idxcell_outlet),
+               "idxinlets": None, "idxcells_area": cells,
+               "idxcells_area_filled": filled,
+               "flowdir": a.c._flowdir.to_dict()}
+        c = hgrid.Catchment.from_dict(dic)
+        c.delineate_boundary()
+        c.compute_flowpathlengths()
+        return [c.idxcells_boundary, np.asarray(cells).tolist()]
+    add("Catchment.from_dict(own cell arrays) then boundary", [CA],
+        from_dict_own_arrays,
+        lambda cs: {"form": cs.choice("form", ["array", "readonly_map"])},
+        weight=4)
+
     def small_plus_large(a, o):
         """Boundary of the smaller catchment first, then the sum of the two
         (smaller + larger, any grids), its boundary, extent and intersection."""
